@@ -52,6 +52,8 @@ func vxRunCode() int
 func vxTraceChan(ch interface{})
 func vxTraceMutex(p interface{})
 func vxTraceMark(s string)
+func vxRaceLog(on bool)
+func vxRaceAnalyse() int
 func vxYield()
 func vxPreemptBudget(n int)
 func vxMapOrder(funcs string)
